@@ -20,15 +20,15 @@ type echModel struct {
 	parseCH, parseExt, marshal, marshalAAD         *ssa.Function
 
 	// in process (the function that calls Receipient.Open)
-	open      site             // the Open call
-	setup     []site           // SetupReceipient calls
-	loop      *ssa.BasicBlock  // header of the candidate-key loop
+	open      site            // the Open call
+	setup     []site          // SetupReceipient calls
+	loop      *ssa.BasicBlock // header of the candidate-key loop
 	loopBody  map[*ssa.BasicBlock]bool
-	keyStr    string           // canonical term of the loop's key element, e.g. p0.keys[...]
-	innerCell *ssa.Alloc       // local holding the decrypted bytes
-	accept    []*ssa.Store     // stores of Open's plaintext into innerCell
-	helloP    *ssa.Parameter   // the outer hello parameter of process
-	retryP    *ssa.Parameter   // the isRetry parameter of process
+	keyStr    string         // canonical term of the loop's key element, e.g. p0.keys[...]
+	innerCell *ssa.Alloc     // local holding the decrypted bytes
+	accept    []*ssa.Store   // stores of Open's plaintext into innerCell
+	helloP    *ssa.Parameter // the outer hello parameter of process
+	retryP    *ssa.Parameter // the isRetry parameter of process
 
 	fConn map[string]*types.Var
 	fCH   map[string]*types.Var
